@@ -159,6 +159,42 @@ Example C08_internal_lro_example :
 Proof. exact ex_internal_lro. Qed.
 Print Assumptions C08_internal_lro_example.
 
+(* http_options of the REST operations client: every binding (primary and additional) of every Operations rule of the
+   service YAML is printed under its selector, in order, one entry per rule, keys distinct *)
+Theorem C08_ops_http_options_complete : forall rules sel pb,
+  (exists bs, In (sel, bs) (ops_http_options rules) /\ In pb bs) <->
+  (exists r b, In r rules /\ hr_selector r = sel /\ starts_with OPERATIONS_PREFIX sel = true /\
+               In (Some b) (hr_bindings r) /\ pb = print_binding b).
+Proof. exact ops_http_options_complete. Qed.
+Print Assumptions C08_ops_http_options_complete.
+
+Theorem C08_ops_http_options_order : forall rules,
+  map fst (ops_http_options rules) = map hr_selector (filter is_operations_rule rules) /\
+  (forall r, In r rules -> is_operations_rule r = true ->
+     In (hr_selector r, map print_binding (usable (hr_bindings r))) (ops_http_options rules)).
+Proof. exact ops_http_options_order. Qed.
+Print Assumptions C08_ops_http_options_order.
+
+Theorem C08_ops_http_options_keys_distinct : forall rules,
+  NoDup (map hr_selector rules) -> NoDup (map fst (ops_http_options rules)).
+Proof. exact ops_http_options_keys_distinct. Qed.
+Print Assumptions C08_ops_http_options_keys_distinct.
+
+Example C08_ops_http_options_example :
+  let get := mkHR "google.longrunning.Operations.GetOperation"
+               [Some (mkB "get" "/v1/{name=projects/*/operations/*}" ""); Some (mkB "get" "/v1/{name=organizations/*/operations/*}" "");
+                None; Some (mkB "get" "/v1/{name=folders/*/operations/*}" "")] in
+  let cancel := mkHR "google.longrunning.Operations.CancelOperation" [Some (mkB "post" "/v1/{name=projects/*/operations/*}:cancel" "*")] in
+  let other := mkHR "google.cloud.location.Locations.GetLocation" [Some (mkB "get" "/v1/{name=projects/*/locations/*}" "")] in
+  ops_http_options [get; other; cancel] =
+    [("google.longrunning.Operations.GetOperation",
+      [mkPB "get" "/v1/{name=projects/*/operations/*}" None; mkPB "get" "/v1/{name=organizations/*/operations/*}" None;
+       mkPB "get" "/v1/{name=folders/*/operations/*}" None]);
+     ("google.longrunning.Operations.CancelOperation", [mkPB "post" "/v1/{name=projects/*/operations/*}:cancel" (Some "*")])]
+  /\ NoDup (map hr_selector [get; other; cancel]).
+Proof. exact ex_ops_http_options. Qed.
+Print Assumptions C08_ops_http_options_example.
+
 (* the former finding, now accepted, and the precedence when both readings name a message *)
 Example C08_nested_relative_example :
   let f1 := [mkFile "a/b.proto" "a.b" [] ["a.b.Outer"; "a.b.Outer.Inner"]] in
